@@ -3271,3 +3271,17 @@ Corollary same_value_same_parse_any v w1 w2 r1 r2 : enc_response v w1 -> enc_res
   parse (w1 ++ r1) = ROk r1 v (nlen w1) /\ parse (w2 ++ r2) = ROk r2 v (nlen w2).
 Proof. intros H1 H2. split; apply response_roundtrip; assumption. Qed.
 
+
+(* consequences of the round-trip theorem for the relation itself: a wire form denotes one value only, and no
+   spelling is a proper prefix of another one (a response ends where it ends, whatever follows) *)
+Corollary spellings_unambiguous v1 v2 w : enc_response v1 w -> enc_response v2 w -> v1 = v2.
+Proof.
+  intros H1 H2. pose proof (response_roundtrip v1 w H1 []) as P1. pose proof (response_roundtrip v2 w H2 []) as P2.
+  rewrite P1 in P2. injection P2 as E. exact E.
+Qed.
+
+Corollary spellings_prefix_free v1 v2 w x : enc_response v1 w -> enc_response v2 (w ++ x) -> x = [] /\ v1 = v2.
+Proof.
+  intros H1 H2. pose proof (response_roundtrip v1 w H1 x) as P1. pose proof (response_roundtrip v2 (w ++ x) H2 []) as P2.
+  rewrite app_nil_r in P2. rewrite P1 in P2. injection P2 as Ex Ev _. split; [exact Ex | exact Ev].
+Qed.
